@@ -30,7 +30,8 @@ def delta_for_block(uid: int, kwspec: dict) -> dict:
         elif name == 'throw':
             delta['throw'] = bool(val)
         elif name == 'options':
-            delta['options'] = f'{val}{uid}'
+            # 'S': the run-wide shared dict (tag P0), else a fresh dict tagged with the block's uid
+            delta['options'] = 'P0' if val == 'S' else f'{val}{uid}'
         elif name == 'callback':
             delta['callback'] = {'u': f'c{uid}', 'D': 'default', 'R': f'r{uid}'}[val]
         else:
@@ -178,6 +179,7 @@ class RefConfig:
         self.left: dict[str, set[str]] = {}  # ctx -> unique tags of blocks already exited
         self.captured: dict[int, list[dict]] = {}
         self.handle_meta: dict[int, dict] = {}
+        self.prebuilt: dict[int, dict] = {}
         self.thread_inherits = thread_inherits
 
     def ctxnew(self, parent: str | None, new: str, mode: str) -> None:
@@ -195,12 +197,12 @@ class RefConfig:
     def base(self, ctx: str) -> dict:
         return self.stacks[ctx][0]
 
-    def enter(self, ctx: str, uid: int, kwspec: dict) -> dict:
+    def enter(self, ctx: str, uid: int, kwspec: dict, entry: dict | None = None) -> dict:
         delta = delta_for_block(uid, kwspec)
         for f, tag in delta.items():
-            if isinstance(tag, str) and tag != 'default' and tag[-1].isdigit() and not tag.startswith('cg'):
+            if isinstance(tag, str) and tag not in ('default', 'P0') and tag[-1].isdigit() and not tag.startswith('cg'):
                 self.owner[tag] = ctx
-        new = merge(self.top(ctx), delta)
+        new = merge(self.top(ctx), delta) if entry is None else dict(entry)
         self.stacks[ctx].append(new)
         return new
 
@@ -251,8 +253,21 @@ def check_history(events: list, table: dict[str, list], thread_inherits: bool = 
             exp = ref.top(ctx)
             if d['obs'] != exp:
                 return bad('I', seq, {'site': 'start', 'diff': diff(d['obs'], exp)})
+        elif kind == 'prebuild':
+            exp = ref.top(ctx)
+            if d['obs'] != exp:
+                return bad(ref.classify(ctx, 'S', d['obs'], exp), seq, {'site': 'prebuild', 'diff': diff(d['obs'], exp)})
+            ref.prebuilt[d['uid']] = dict(exp)
         elif kind == 'enter':
-            exp = ref.enter(ctx, d['uid'], d['kw'])
+            if d.get('pre'):
+                # a prebuilt Config object: resolved against the construction-time or the entry-time
+                # configuration, both accepted
+                delta = delta_for_block(d['uid'], d['kw'])
+                alts = [merge(ref.prebuilt.pop(d['uid']), delta), merge(ref.top(ctx), delta)]
+                chosen = next((a for a in alts if a == d['c']), alts[-1])
+                exp = ref.enter(ctx, d['uid'], d['kw'], chosen)
+            else:
+                exp = ref.enter(ctx, d['uid'], d['kw'])
             for name in ('c', 'inst'):
                 if d[name] != exp:
                     return bad(ref.classify(ctx, 'S', d[name], exp), seq, {'site': 'enter:' + name, 'diff': diff(d[name], exp)})
@@ -294,6 +309,14 @@ def check_history(events: list, table: dict[str, list], thread_inherits: bool = 
                 return bad('N', seq, {'site': 'badconfig', 'raised': d['raised']})
             if d['obs'] != exp:
                 return bad(ref.classify(ctx, 'N', d['obs'], exp), seq, {'site': 'badconfig', 'diff': diff(d['obs'], exp)})
+        elif kind == 'noenter':
+            exp = ref.top(ctx)
+            if d['obs'] != exp:
+                return bad(ref.classify(ctx, 'S', d['obs'], exp), seq, {'site': 'noenter', 'diff': diff(d['obs'], exp)})
+        elif kind == 'construct':
+            exp = ref.top(ctx)
+            if d['obs'] != exp:
+                return bad(ref.classify(ctx, 'S', d['obs'], exp), seq, {'site': 'construct', 'diff': diff(d['obs'], exp)})
         elif kind == 'ctxend':
             # a copied context has run to its end: back at its snapshot
             exp = ref.base(ctx)
